@@ -33,8 +33,21 @@ static DivCase gen_div(ByteSource& in, CaseInfo& ci, bool norm_d, size_t dn_fixe
   else qn = std::min<size_t>(room, dn + (size_t)in.logrange(0, room));                       // long quotient
   if (qn > room) qn = room;
   DivCase c; Limbs dl = gen_divisor(in, dn, norm_d, ci); c.d = Int::from_limbs(dl.data(), dn);
-  unsigned mode = in.pick({6, 3, 2, 2});
-  if (mode == 0 || qn == 0) {
+  unsigned mode = in.pick({6, 3, 2, 2, 2});
+  if (mode == 4 && (norm_d || qn == 0)) mode = 0;   // (the constructed divisor of mode 4 is not normalised)
+  if (mode == 4) {
+    // q*d straddles a power of two: n = 2^K - t with (mostly) K a multiple of 64, so that n's leading limbs are all ones, and
+    // d = ceil(2^K / m) for a qn-limb m with a small top limb; the approximate quotient is then m.000 and the check product m*d of
+    // the quotient-only division overflows the dividend's length by a carry
+    Limbs ml = limbs(in, qn); unsigned top = in.pick({4, 1, 1, 2}); if (top < 3) ml[qn - 1] = top + 1; if (ml[qn - 1] == 0) ml[qn - 1] = 1;
+    Int m = Int::from_limbs(ml.data(), qn);
+    uint64_t K = 64 * (dn + qn - 1); unsigned ck = in.pick({4, 1, 1}); uint64_t cut = ck == 0 ? 0 : ck == 1 ? 64 : in.range(0, 130); if (K > cut + 64) K -= cut;
+    Int B = ref::pow2(K), dq, dr; ref::tdivrem(B, m, dq, dr); if (!dr.is_zero() && in.pick({3, 1}) == 0) dq = dq + Int(1);
+    if (dq.is_zero()) dq = Int(1);
+    c.d = dq; unsigned nk = in.pick({3, 2, 1}); long long t = (long long)in.range(0, 3);
+    c.n = nk == 0 ? B - Int(t) : nk == 1 ? m * c.d - Int(t) : m * c.d + Int(t); if (c.n.sgn() < 0) c.n = Int(0);
+    ref::tdivrem(c.n, c.d, c.q, c.r); ci.label("qd_straddles_power_of_two");
+  } else if (mode == 0 || qn == 0) {
     // chosen quotient and remainder
     Limbs ql = limbs(in, qn); unsigned qs = in.pick({5, 3, 2});
     if (qs == 1) ql.assign(qn, ~0ull);                                   // all-ones quotient limbs
@@ -78,6 +91,19 @@ static void case_tdiv_qr(ByteSource& in, CaseInfo& ci) {
   Int Q = Int::from_limbs(q.p(), qn), R = Int::from_limbs(r.p(), dn);
   REQUIRE(R < c.d, "mpn_tdiv_qr(nn=%zu,dn=%zu): remainder >= divisor", nn, dn);
   REQUIRE(Q == c.q && R == c.r, "mpn_tdiv_qr(nn=%zu,dn=%zu): wrong %s", nn, dn, Q == c.q ? "remainder" : "quotient");
+}
+static void case_tdiv_q(ByteSource& in, CaseInfo& ci) {
+  DivCase c = gen_div(in, ci, false);
+  size_t dn = c.d.size(), nn = std::max(c.n.size(), dn);
+  if (in.chance(60)) nn += (size_t)in.range(1, 3);
+  Limbs np(nn, 0); std::copy(c.n.m.begin(), c.n.m.end(), np.begin()); Limbs dp = c.d.m; size_t qn = nn - dn + 1;
+  ci.d("mpn_tdiv_q nn=%zu dn=%zu ", nn, dn); DESC(ci, "n=" + show(c.n, 64) + " d=" + show(c.d, 64));
+  ci.label("mpn_tdiv_q"); if (nn > dn || dn >= 2) ci.nontrivial = true; if (qn + 5 < dn) ci.label("tdiv_q:short_quotient_branch"); else ci.label("tdiv_q:long_quotient_branch");
+  Guarded q(qn); Limbs n0 = np, d0 = dp;
+  mpn_tdiv_q(q.p(), np.data(), nn, dp.data(), dn);
+  REQUIRE(q.intact(), "mpn_tdiv_q(nn=%zu,dn=%zu): wrote outside the %zu-limb quotient area", nn, dn, qn);
+  REQUIRE(np == n0 && dp == d0, "mpn_tdiv_q(nn=%zu,dn=%zu): a source operand was modified", nn, dn);
+  REQUIRE(Int::from_limbs(q.p(), qn) == c.q, "mpn_tdiv_q(nn=%zu,dn=%zu): wrong quotient", nn, dn);
 }
 static void case_divrem(ByteSource& in, CaseInfo& ci) {
   DivCase c = gen_div(in, ci, true, 0, std::min<size_t>(nn_cap(in.scale), 1200));
@@ -320,14 +346,15 @@ static void sweep_item(uint64_t i, CaseInfo& ci) {
   if (n % d == 0) { mpz_divexact(z.c, z.a, z.b); REQUIRE(int_from_mpz(z.c) == Int((long long)(n / d)), "mpz_divexact(%ld,%ld)", n, d); if (d > 0) { mpz_divexact_ui(z.c, z.a, (unsigned long)d); REQUIRE(int_from_mpz(z.c) == Int((long long)(n / d)), "mpz_divexact_ui(%ld,%ld)", n, d); } }
 }
 static void check(ByteSource& in, CaseInfo& ci) {
-  switch (in.pick({6, 2, 4, 1, 7, 4, 3, 6})) {
+  switch (in.pick({6, 2, 4, 1, 7, 4, 3, 6, 4})) {
+    case 8: case_tdiv_q(in, ci); break;
     case 0: case_tdiv_qr(in, ci); break; case 1: case_divrem(in, ci); break; case 2: case_divrem_1(in, ci); break; case 3: case_by3(in, ci); break;
     case 4: case_mpz_div(in, ci); break; case 5: case_mpz_div_ui(in, ci); break; case 6: case_mpz_2exp(in, ci); break; default: case_mpz_misc(in, ci); break;
   }
 }
 namespace eng {
 PropDef g_prop = {"C02",
-  "Cases: one call of mpn_tdiv_qr (qxn=0, top divisor limb non-zero, dividend may have high zero limbs), mpn_divrem (normalised divisor, qxn 0..3), mpn_divrem_1 (qxn 0..3, n=0 allowed, in place), mpn_mod_1, mpn_divexact_by3c, or of the mpz tdiv/fdiv/cdiv q/r/qr functions (all sign combinations, outputs aliasing inputs), their _ui and _2exp forms, mpz_mod(_ui), mpz_divexact(_ui) on exact inputs only, mpz_divisible_*/congruent_* incl. d=0. Operands by backward construction n=q*d+r: divisor sizes around the schoolbook/divide-and-conquer/inverse thresholds, quotient shapes (short, nn~2dn, long), quotient limbs all-ones, r in {0,1,d-1,random}, dividends whose leading limbs (or several windows) equal the divisor's, divisor classes (power of two, B^k-1, top limb 1, normalised, single-limb classes). Oracle: refint: n=q*d+r, |r|<|d|, rounding direction and remainder sign per the manual, _ui return = |r|. Non-trivial: nn>dn or dn>=2 (mpn) / operand >= 2 limbs (mpz). Distinct = hash of all decoded choices.",
-  check, nullptr, {"q_limb_allones", "r_eq_d_minus_1", "r_zero", "unnormalised_d", "short_quotient", "n_prefix_equals_d", "dn_ge_dc_div_qr", "dn_ge_inv_div_qr", "sign:--", "sign:-+", "sign:+-", "d_zero", "divrem_qxn"}, nullptr, sweep_count, sweep_item,
+  "Cases: one call of mpn_tdiv_qr (qxn=0, top divisor limb non-zero, dividend may have high zero limbs), mpn_tdiv_q (quotient only), mpn_divrem (normalised divisor, qxn 0..3), mpn_divrem_1 (qxn 0..3, n=0 allowed, in place), mpn_mod_1, mpn_divexact_by3c, or of the mpz tdiv/fdiv/cdiv q/r/qr functions (all sign combinations, outputs aliasing inputs), their _ui and _2exp forms, mpz_mod(_ui), mpz_divexact(_ui) on exact inputs only, mpz_divisible_*/congruent_* incl. d=0. Operands by backward construction n=q*d+r: divisor sizes around the schoolbook/divide-and-conquer/inverse thresholds, quotient shapes (short, nn~2dn, long), quotient limbs all-ones, r in {0,1,d-1,random}, dividends whose leading limbs (or several windows) equal the divisor's, products q*d straddling a power of two (n = 2^K - t with all-ones leading limbs, d = ceil(2^K/m)), divisor classes (power of two, B^k-1, top limb 1, normalised, single-limb classes). Oracle: refint: n=q*d+r, |r|<|d|, rounding direction and remainder sign per the manual, _ui return = |r|. Non-trivial: nn>dn or dn>=2 (mpn) / operand >= 2 limbs (mpz). Distinct = hash of all decoded choices.",
+  check, nullptr, {"q_limb_allones", "r_eq_d_minus_1", "r_zero", "unnormalised_d", "short_quotient", "n_prefix_equals_d", "dn_ge_dc_div_qr", "dn_ge_inv_div_qr", "sign:--", "sign:-+", "sign:+-", "d_zero", "divrem_qxn", "mpn_tdiv_q", "qd_straddles_power_of_two", "tdiv_q:short_quotient_branch"}, nullptr, sweep_count, sweep_item,
   "every (n,d) in [-130,130]^2 through mpz_{t,f,c}div_{q,r,qr}, their _ui forms (d>0), the _2exp forms (d a power of two), mpz_mod, mpz_divexact(_ui) when exact, mpz_divisible_p/_ui_p/_2exp_p and mpz_congruent_p/_ui_p for c in [-3,3], d = 0 included where the manual defines it"};
 }
